@@ -134,7 +134,7 @@ mutant('C18', 'rec-no-replay', 'cache.py',
 mutant('C18', 'rec-no-seek', 'cache.py',
        "                            resume = self.resume_index(history, i)\n                            f.seek(0)\n",
        "                            resume = self.resume_index(history, i)\n",
-       'recomputed item appended after the torn bytes instead of replacing them (still correct values, never cached) - informational', expect='survive')
+       'recomputed item written after the torn bytes instead of replacing them: benign before fix a1b0222 (values right, item never cached); since entries are truncated before they are rewritten the stale prefix stays in front of the new pickle and later calls fail or, for items of several pickle frames, load wrong objects', expect='J')
 
 # ------------------------------------------------------------------ C14
 mutant('C14', 'no-finite-check', 'matrix/_base.py',
